@@ -147,6 +147,16 @@ Theorem c12_group_watcher : forall c s, Grp.elock c = true -> Reach (Grp.step c)
   (Grp.lc s = Grp.LcSel -> Grp.closed_ch s = true -> exists s', Grp.step c s Grp.ALStop = Some s' /\ Grp.lc s' = Grp.LcExit).
 Proof. exact C12X.c12_group_watcher. Qed.
 
+(* consumer group: release() (close(hbDying); <-hbDead) is only ever run on a session whose heartbeat loop was started — also
+   on the failure path of newConsumerGroupSession (a claim's initial offset fetch fails after the session object exists:
+   model step ACSetup SFailLate); release waits on hbDead after closing hbDying; hbDead is closed exactly by the loop's exit *)
+Theorem c12_group_release_has_heartbeat : forall c s, Grp.elock c = true -> Reach (Grp.step c) (Grp.init c) s ->
+  ((Grp.cc s = Grp.CWaitCtx \/ (exists r, Grp.cc s = Grp.CRel1 r) \/ (exists r, Grp.cc s = Grp.CRelWait r) \/ (exists r, Grp.cc s = Grp.CRel2 r) \/
+    (exists r, Grp.cc s = Grp.CRelHe r) \/ (exists r, Grp.cc s = Grp.CRel3 r) \/ (exists r, Grp.cc s = Grp.CRel4 r)) -> Grp.hb s <> Grp.HNone) /\
+  ((exists r, Grp.cc s = Grp.CRel4 r) -> Grp.hb_dying s = true) /\
+  (Grp.hb s = Grp.HDone <-> Grp.hb_dead s = true).
+Proof. exact C12X.c12_group_release_has_heartbeat. Qed.
+
 (* broker connection: b.responses / b.done exist exactly while the connection is open and past its SASL step, and then a
    receiver goroutine exists that closes done (a Close waiting on done waits on a channel with a receiver); during
    the SASL step and after its failure there is a / no connection, no channels and no receiver: Open whose
